@@ -30,6 +30,7 @@ type retCase struct {
 	Str      core.B `json:"str,omitempty"`
 	Nil      bool   `json:"nil,omitempty"`                           // nil slice / nil pointer / nil interface instead of Str
 	Err      string `json:"err,omitempty"`                           // "" nil | new | custom | wrapped | sentinel:<i> | wrapped-sentinel:<i> (well-known error values of the standard library: what is written is Error(), whatever the error is)
+	Long     int    `json:"long_text_bytes,omitempty"`               // the returned text (and possibly the error message) is this long: sizes around 4 KiB, 8 KiB, 64 KiB, 1 MiB
 	ErrMsg   core.B `json:"err_msg,omitempty"`                       //
 	Pos      int    `json:"pos"`                                     // number of silent handlers before it
 	Reflect  bool   `json:"reflective"`                              // add an injected parameter so that the built-in fast path cannot apply
@@ -507,6 +508,20 @@ func genRetCase(rng *rand.Rand) *retCase {
 			c.Pos = 1
 		}
 	}
+	if rng.Intn(15) == 0 {
+		// drawn last: a long text (sizes around the usual buffer sizes) as the returned string / bytes and, half of the
+		// time, as the error's message - the body is that text, all of it and nothing else
+		n := []int{4095, 4096, 4097, 8191, 8192, 8193, 10000, 16384, 32769, 65535, 65536, 65537, 100000, 1<<20 + 3}[rng.Intn(14)]
+		b := make([]byte, n)
+		for i := range b {
+			b[i] = "abcdefghijklmnopqrstuvwxyz0123456789-_"[(i+i/38)%38]
+		}
+		c.Str = core.B(b)
+		if c.Err != "" && len(c.ErrMsg) > 0 && rng.Intn(2) == 0 {
+			c.ErrMsg = core.B(b)
+		}
+		c.Long = n
+	}
 	return c
 }
 
@@ -662,6 +677,9 @@ func judgeRet(w *core.W, c *retCase) {
 		cls = "pointer"
 	}
 	w.Count("class:" + c.Shape + "/" + cls)
+	if c.Long > 0 {
+		w.Count("long-text-returned")
+	}
 	w.Count("path:" + path)
 	w.Count("method:" + meth)
 	if c.Custom != "" {
@@ -811,6 +829,7 @@ func runC14(r *core.Run) {
 		}
 	})
 	r.GateCounter("status-sweep", 5000)
+	r.GateCounter("long-text-returned", 1000)
 	for _, s := range retShapes {
 		if s == "*string" || s == "*bytes" {
 			r.GateCounter("class:"+s+"/pointer", 50)
